@@ -24,6 +24,7 @@ VIEWS = {
     "C20": ["mls", "chain", "snaps"],
     "C03": ["st", "mls", "msgs", "res"],
     "C18": ["mls", "msgs", "last"],
+    "C06": ["st", "mls", "chain", "members", "mdata", "pend", "props", "msgs", "rec", "res"],
     "C16": ["st", "mls", "chain", "members", "mdata", "rec", "pend", "props", "res"],
     "C11": ["st", "mls", "chain", "members", "pend", "props", "mdata", "rec", "last", "msgs", "proc", "snaps", "res", "out"],
 }
@@ -347,4 +348,104 @@ def plan_C16(ctx, rt):
                            "(none, pending, active, inactive); non-trivial = >= 2 welcome calls incl. a successful accept")
 
 
-PLANS = {"C16": plan_C16, "C03": plan_C03, "C18": plan_C18, "C11": plan_C11, "C01": plan_C01, "C02": plan_C02, "C07": plan_C07, "C08": plan_C08, "C20": plan_C20}
+LEAK_CFG = "SPECIFICATION Spec\nPOSTCONDITION Accepted\nCHECK_DEADLOCK FALSE\n"
+
+
+def plan_C14(ctx, rt):
+    """Scan of every log record / error / processing result produced while running the Marmot histories."""
+    pid, tier, seed, t0 = ctx["pid"], ctx["tier"], ctx["seed"], ctx["t0"]
+    rt.build_harness()
+    dev = rt.dev_flags()
+    profs = {"quick": [dict(n=8, steps=50, backend="mixed", regime="causal", profile="core"),
+                       dict(n=8, steps=60, backend="mixed", regime="causal", profile="members", observers=1, restarts=1, wreplay=1),
+                       dict(n=8, steps=60, backend="sql", regime="causal", profile="members", observers=1, restarts=1, retention=2),
+                       dict(n=20, backend="mixed", profile="welcome")],
+             "thorough": [dict(n=40, steps=70, backend=["mem", "sql", "mixed"][i % 3], regime="causal",
+                               profile=["core", "members", "members", "welcome"][i % 4], observers=1, restarts=1, wreplay=1,
+                               retention=[5, 2, 1][i % 3]) for i in range(12)]}[tier if tier in ("quick", "thorough") else "quick"]
+    if ctx.get("replay"):
+        profs = [json.load(open(ctx["replay"]))["profile"]]
+    calls = logs = 0
+    labels = {}
+    viol = []
+    samples = []
+    for pi, prof in enumerate(profs):
+        prof = dict(prof)
+        if not ctx.get("replay"):
+            prof["seed"] = seed * 1000 + pi
+        tr = os.path.join(rt.OUT, "traces", "%s_%s_%d.ndjson" % (pid, tier, pi))
+        os.makedirs(os.path.dirname(tr), exist_ok=True)
+        argv = " ".join("%s=%s" % kv for kv in prof.items())
+        rc, out = rt.sh("%s rand %s %s" % (rt.BIN, tr, argv), timeout=3600, env={"VERIF_DEV": ",".join(dev)})
+        if rc != 0:
+            rt.log(out[-2000:]); rt.log("TOOL-ERROR: harness failed"); return 2
+        r = rt.tlc_trace("LeakTrace.tla", LEAK_CFG, tr, view="all", timeout=1200)
+        for ln in open(tr):
+            d = json.loads(ln)
+            if "leak" in d:
+                calls += 1
+                logs += d.get("nlog", 0)
+                k = "%s/%s" % (d["op"], d.get("res", ""))
+                labels[k] = labels.get(k, 0) + 1
+                if d.get("nlog", 0) > 0 and len(samples) < 4:
+                    samples.append({"op": d["op"], "c": d.get("c"), "res": d.get("res"), "records_scanned": d["nlog"]})
+        m = re.search(r"LEAK-OR-PANIC at line (\d+) : (.*)", r["out"])
+        if m:
+            line = int(m.group(1))
+            exc, rel = rt.history_excerpt(tr, line)
+            rp = os.path.join(rt.OUT, "replays", "%s_%s_%d.json" % (pid, tier, prof["seed"]))
+            os.makedirs(os.path.dirname(rp), exist_ok=True)
+            bad = json.loads(open(tr).read().splitlines()[line - 1])
+            json.dump({"property": pid, "profile": prof, "line": line, "leak": bad.get("leak"), "res": bad.get("res"),
+                       "call": {k: v for k, v in bad.items() if k not in ("post", "posts")}}, open(rp, "w"))
+            viol.append((str(bad.get("leak") or bad.get("res"))[:300], rp))
+            break
+        if "Model checking completed. No error" not in r["out"]:
+            rt.log(r["out"][-2000:]); rt.log("TOOL-ERROR: TLC failed on %s" % tr); return 2
+    cov = {"evaluations": calls, "distinct_nontrivial": len([k for k in labels]), "samples": samples or [{"note": "none"}],
+           "rule": "every API call of the generated histories is run with a tracing subscriber capturing all records (TRACE and up) and "
+                   "with Display+Debug of every returned Err and Debug of every MessageProcessingResult; scanned for MLS group id, nostr group "
+                   "ids, exporter secrets of all stored epochs and the db key in hex (lower/upper) and byte-list forms; "
+                   "distinct_nontrivial = number of distinct (operation, result class) labels exercised",
+           "log_and_error_records_scanned": logs, "labels": labels, "profiles": profs}
+    rt.write_evidence(pid, tier, seed, "exploration", cov, time.time() - t0, len(viol),
+                      ["needle forms: hex lower/upper, Rust byte-list Debug; base64 not scanned",
+                       "paths the Marmot spec has no action for are not driven (see labels for what was)"])
+    if viol:
+        for what, rp in viol:
+            rt.log("violation detail:", what)
+            rt.log("VIOLATION property=%s replay=%s" % (pid, rp))
+        return 1
+    rt.log("OK %s tier=%s: %d calls, %d log/error records scanned, %d labels, %.0fs" % (pid, tier, calls, logs, len(labels), time.time() - t0))
+    return 0
+
+
+def junk_profiles():
+    q = [dict(n=8, steps=70, backend="mixed", regime="causal", profile="members", observers=1, junk=1),
+         dict(n=8, steps=60, backend="sql", regime="causal", profile="core", junk=1, retention=2),
+         dict(n=8, steps=70, backend="mem", regime="causal", profile="members", junk=1)]
+    t = [dict(n=40, steps=80, backend=["mem", "sql", "mixed"][i % 3], regime="causal", profile=["members", "core"][i % 2],
+              observers=1, junk=1, retention=[5, 2, 1][i % 3]) for i in range(8)]
+    return {"quick": q, "thorough": t}
+
+
+def nt_refused(h):
+    return any(d["op"] == "Junk" and d["res"] == "Ok" for d in h) and \
+        any(d["op"] == "Deliver" and d["res"] in ("Err", "Unprocessable", "PreviouslyFailed", "IgnoredProposal") for d in h)
+
+
+def plan_C06(ctx, rt):
+    return run_marmot(ctx, rt, invariants=[], properties=["ActC06"], view="C06", mc=MC_CORE, profiles=junk_profiles(),
+                      nontrivial=nt_refused,
+                      assumptions=ASSUME_MARMOT + ["bytes are not enumerated by TLC: the spec enumerates hostile-input CLASSES (bad kind, missing/"
+                                                    "duplicate/short/non-hex h tag, stale/future timestamp, unknown group, undecryptable content, NIP-44-"
+                                                    "wrapped junk under the right exporter secret, truncated and bit-flipped copies of real MLS payloads); "
+                                                    "the harness instantiates each class with seeded random mutations",
+                                                    "OpenMLS is built without debug assertions (its debug_assert on AEAD failure panics in debug builds)",
+                                                    "welcome / key-package / uniffi-string inputs are not covered by this check yet"],
+                      rule="membership histories with hostile events of 12 classes injected at random points and handed to random clients "
+                           "(any state: idle, pending commit, queued proposals, evicted, non-member); every call runs under catch_unwind; "
+                           "non-trivial = a hostile event was published and some call was refused")
+
+
+PLANS = {"C06": plan_C06, "C14": plan_C14, "C16": plan_C16, "C03": plan_C03, "C18": plan_C18, "C11": plan_C11, "C01": plan_C01, "C02": plan_C02, "C07": plan_C07, "C08": plan_C08, "C20": plan_C20}
